@@ -14,7 +14,7 @@ from edgegraph.structure.universe import UniverseLaws
 
 from egverif import zoo
 
-VCLS = ["Vertex", "VSub", "VSubSub", "FalsyVertex", "EmptyVertex"]
+VCLS = ["Vertex", "VSub", "VSubSub", "FalsyVertex", "EmptyVertex", "VCustomState", "VCachingOn"]
 ECLS = list(zoo.EDGE_CLASSES)
 
 W_STRUCT = {"mke": 12, "mkl": 2, "mkv": 4, "setv1": 10, "setv2": 10, "v_add_link": 5, "v_rm_link": 8,
